@@ -52,7 +52,7 @@ def srt(x, frequency):
     return x[argsort(frequency)]
 '''
 
-contract('gnpy.core.info.SpectralInformation.__init__', props=['C07', 'C01', 'C03', 'C02'],
+contract('gnpy.core.info.SpectralInformation.__init__', props=['C07', 'C01', 'C03', 'C02', 'C06'],
          params=dict({'self': obj('SpectralInformation')},
                      **{a: (vec('n', 'str') if a == 'label' else vec('n')) for a in SI_ARGS}),
          spec=SPEC_SORTED,
